@@ -505,7 +505,16 @@ def _lazy_fill(act, node, slot_expr, readers):
 
 def render_scope(repo, roots):
     from ..callgraph import CallGraph
-    cg = CallGraph(repo)
+    cache = getattr(repo, '_c17_render_scope', None)
+    key = tuple(f.key for f in roots)
+    if cache is not None and cache[0] == key:
+        return list(cache[1])
+    out = _render_scope(repo, roots, CallGraph(repo))
+    repo._c17_render_scope = (key, out)
+    return list(out)
+
+
+def _render_scope(repo, roots, cg):
     reach = cg.reachable(roots, kinds=('call', 'self', 'super', 'new', 'role', 'prop', 'classattr', 'instance-call'))
     out, seen = [], set()
     for f in list(roots) + sorted((f for f in reach if not f.mod.external), key=lambda f: f.key):
